@@ -465,7 +465,9 @@ func (h *hist) checkSlice(ver, plane string) error {
 	off[ax[0]], sz[0], cls[0] = axisSpan(h.r, h.j.bs[ax[0]], B[ax[0]], 2)
 	off[ax[1]], sz[1], cls[1] = axisSpan(h.r, h.j.bs[ax[1]], B[ax[1]], 2)
 	bsf := h.j.bs[fixed]
-	pos := []int{0, 1, bsf / 2, bsf - 1}[h.r.Intn(4)]
+	pi := h.r.Intn(4)
+	pos := []int{0, 1, bsf / 2, bsf - 1}[pi]
+	posName := []string{"0", "1", "bs/2", "bs-1"}[pi]
 	off[fixed] = B[fixed]*bsf + pos
 	url := fmt.Sprintf("%s/raw/%s/%d_%d/%s", h.base(ver), plane, sz[0], sz[1], off)
 	if h.r.Intn(2) == 0 {
@@ -481,8 +483,8 @@ func (h *hist) checkSlice(ver, plane string) error {
 	nontrivial := st.Blocks >= 2 || (st.Written > 0 && st.Unwritten > 0)
 	h.c.Case(fmt.Sprintf("slice|%s|%s|%s|%s|%dx%d", h.id(), h.short(ver), plane, off, sz[0], sz[1]), nontrivial)
 	h.c.Count("reads_raw_2d_"+plane, 1)
-	h.c.Seen("slice_classes", fmt.Sprintf("%s:%s,%s@%d", plane, cls[0], cls[1], pos))
-	ckey := fmt.Sprintf("%s:%s:%s:(%s),(%s),pos%s", h.j.vt.name, bsName(h.j.bs), plane, cls[0], cls[1], offName(pos, bsf))
+	h.c.Seen("slice_classes", fmt.Sprintf("%s:%s,%s@%s", plane, cls[0], cls[1], posName))
+	ckey := fmt.Sprintf("%s:%s:%s:(%s),(%s),pos(%s)", h.j.vt.name, bsName(h.j.bs), plane, cls[0], cls[1], posName)
 	if !rr.OK() {
 		report(h.c, "raw2d-read-refused:"+ckey, fmt.Sprintf("%s: GET %s at %s refused: %s", h.id(), url, h.short(ver), rr), h.witness(map[string]interface{}{"url": url}))
 		return nil
